@@ -52,6 +52,19 @@ partial def loop (h : IO.FS.Stream) (out : IO.FS.Stream) (m : Profile) : IO Unit
         emitCase out false m s!"{profile}-{seed}-{i}" bs
       out.flush
       loop h out m
+  | ["GENVAR", profile, seed, count, k] =>
+      -- `count` programs, each in `k` encodings of the same meaning (C07)
+      let cfg := cfgOf profile
+      let seed := seed.toNat!
+      for i in [0:count.toNat!] do
+        let p := Gen.run (seed * 1000003 + i) (Gen.programG cfg)
+        for j in [0:k.toNat!] do
+          let q := if j == 0 then p else Gen.run (seed * 7919 + i * 131 + j) (Gen.reencode p)
+          let bs := Spec.encode q
+          out.putStrLn s!"INPUT var-{profile}-{seed}-{i}-{j} {Obs.hex bs}"
+          emitCase out false m s!"var-{profile}-{seed}-{i}-{j}" bs
+      out.flush
+      loop h out m
   | ["GENBLEND", mode, seed, lop, cop, w, hh, verbose] =>
       -- two-layer blend enumeration; pixel pairs depend on the seed only
       let (back, src) := Gen.run seed.toNat! (Gen.blendPixelsG (w.toNat! * hh.toNat!))
@@ -166,6 +179,14 @@ partial def loop (h : IO.FS.Stream) (out : IO.FS.Stream) (m : Profile) : IO Unit
               let r := parseStream Zlib.inflate m ⟨bs, evs⟩
               for l in Obs.load false m r do
                 out.putStrLn l
+      out.putStrLn "END"
+      out.flush
+      loop h out m
+  | ["ALLOC", id, hx] =>
+      out.putStrLn s!"CASE {id}"
+      match Obs.unhex hx with
+      | none => out.putStrLn "bad-hex"
+      | some bs => out.putStrLn s!"alloc len={bs.length} reserved={Alloc.reserved bs} bound={Alloc.bound bs.length}"
       out.putStrLn "END"
       out.flush
       loop h out m
